@@ -7,7 +7,9 @@
    file) of that record. *)
 From Coq Require Import List NArith.
 From NV Require Import Fasta.Layout Fasta.LayoutProofs Fasta.Indexer Fasta.IndexerProofs
-                       Fasta.Query Fasta.QueryProofs.
+                       Fasta.Query Fasta.QueryProofs Fasta.Reader Fasta.WriterProofs
+                       Fasta.Fastq Fasta.FastqProofs Fasta.Delivery Fasta.DeliveryProofs.
+From NV Require Import Io.Source Io.FastaScan.
 Import ListNotations.
 Open Scope N_scope.
 
@@ -118,9 +120,154 @@ Theorem c11_query_repaired_start_beyond : forall f recs err r s e,
 Proof. exact query_checked_beyond. Qed.
 Print Assumptions c11_query_repaired_start_beyond.
 
-(* Not proved in this revision (tested by the harness only): c11_fasta_writer_reader (the model
-   writer NV.Fasta.Layout.write_record is compared byte for byte with noodles' writer, its output
-   is re-read and re-indexed on the implementation) and c11_fastq_roundtrip. *)
+(* ---- FASTA writer / reader round trip, at every line width, for whole files ----
+
+   Models: NV.Fasta.Reader.write_file (io/writer.rs write_record per record, line width w) and
+   read_file (io/reader/records.rs: read_definition + read_sequence per record).  [rec_ok w r] is
+   the exact shape the code needs:
+     name        non-empty, no ASCII whitespace (the reader ends the name at the first whitespace);
+     description None, or Some d with d non-empty, LF-free and already trimmed (the reader trims
+                 the rest of the definition line and maps an empty rest to None);
+     sequence    every written line (chunk of w bytes) has no LF, does not start with '>' (a
+                 definition) or CR (skipped at a line start), does not end with CR (taken as part
+                 of the line terminator).  Any sequence without LF, CR and '>' satisfies this at
+                 every width (c11_plain_seq_ok); an empty sequence is allowed. *)
+Theorem c11_fasta_writer_reader : forall w recs,
+  (1 <= w)%nat -> Forall (rec_ok w) recs ->
+  read_file (write_file w recs) = (recs, None).
+Proof. exact write_read_roundtrip. Qed.
+Print Assumptions c11_fasta_writer_reader.
+
+Theorem c11_plain_seq_ok : forall w s,
+  (1 <= w)%nat -> ~ In LF s -> ~ In CR s -> ~ In GT s -> seq_ok w s.
+Proof. exact plain_seq_ok. Qed.
+Print Assumptions c11_plain_seq_ok.
+
+(* The writer's output is accepted by the indexer, whole file: the index is exactly one fai record
+   per written record with name, length = number of bases, position = bytes written before the
+   first base, line_bases = min(w, length), line_width = line_bases + 1 ([fai_of]). *)
+Theorem c11_fasta_writer_indexed : forall w recs,
+  (1 <= w)%nat -> Forall (rec_ok w) recs -> Forall has_bases recs ->
+  index_file (write_file w recs) = (expected_index w recs 0, None).
+Proof. exact index_file_written. Qed.
+Print Assumptions c11_fasta_writer_indexed.
+
+Theorem c11_fasta_writer_geometry : forall w rec off,
+  let r := fai_of w rec off in
+  f_name r = r_name rec /\ f_len r = len (r_seq rec) /\
+  f_pos r = off + len (write_definition (r_name rec) (r_desc rec)) + 1 /\
+  f_lb r = N.min (N.of_nat w) (len (r_seq rec)) /\ f_lw r = f_lb r + 1.
+Proof. intros w rec off. cbn. repeat split. Qed.
+Print Assumptions c11_fasta_writer_geometry.
+
+(* ... and every region query on any record of the written file is exact (composition with
+   c11_query_exact_general): for a file of several records pre ++ rec :: post, the fai record of
+   rec is in the index, is what the name lookup returns when no earlier record has the same name,
+   and a query with 1 <= start <= length, start <= end returns exactly
+   firstn (end-start+1) (skipn (start-1) sequence) provided the base at the region start is
+   neither CR nor '>' (always true for sequences without CR and '>'). *)
+Theorem c11_fasta_writer_query_exact : forall w pre rec post,
+  (1 <= w)%nat ->
+  Forall (rec_ok w) (pre ++ rec :: post) -> Forall has_bases (pre ++ rec :: post) ->
+  let f := write_file w (pre ++ rec :: post) in
+  let r := fai_of w rec (len (write_file w pre)) in
+  In r (fst (index_file f)) /\
+  (~ In (r_name rec) (map r_name pre) -> find_record (fst (index_file f)) (r_name rec) = Some r) /\
+  forall chk s e,
+    let B := r_seq rec in
+    let st := match s with Some p => p | None => 1 end in
+    let en := match e with Some p => p | None => usize_max end in
+    nth (N.to_nat (st - 1)) B 0 <> CR -> nth (N.to_nat (st - 1)) B 0 <> GT ->
+    1 <= st -> st <= len B -> st <= en ->
+    query_record chk f r s e = QOk (firstn (N.to_nat (en - st + 1)) (skipn (N.to_nat (st - 1)) B)).
+Proof.
+  intros w pre rec post Hw Hok Hb f r.
+  destruct (written_record_indexed w pre rec post Hw Hok Hb) as [H1 H2].
+  split; [exact H1|]. split; [exact H2|].
+  intros chk s e. exact (written_query_exact w pre rec post chk s e Hw Hok Hb).
+Qed.
+Print Assumptions c11_fasta_writer_query_exact.
+
+(* ---- FASTQ ----
+
+   Models: NV.Fasta.Fastq.write_qfile (noodles-fastq io/writer/record.rs, definition separator
+   sep), read_qfile (io/reader/record.rs + record/definition.rs with the repaired CRLF handling of
+   e8298c4 + records.rs) and index_qfile (io/indexer.rs).  The reader is line driven: '@' and '+'
+   inside or leading a quality string (or a sequence) are plain data.  [qrec_ok r]: the name has no
+   SP / HT / LF and, if there is no description, does not end with CR; description, sequence and
+   quality string have no LF and do not end with CR.  Names may be empty, sequence and quality
+   string may be empty and of different lengths. *)
+Theorem c11_fastq_roundtrip : forall sep recs,
+  sep = SP \/ sep = HT -> Forall qrec_ok recs ->
+  read_qfile (write_qfile sep recs) = (recs, None).
+Proof. exact fastq_roundtrip. Qed.
+Print Assumptions c11_fastq_roundtrip.
+
+Theorem c11_plain_qrec_ok : forall r,
+  Forall (fun b => delim b = false) (q_name r) -> ~ In CR (q_name r) ->
+  ~ In LF (q_desc r) -> ~ In CR (q_desc r) ->
+  ~ In LF (q_seq r) -> ~ In CR (q_seq r) ->
+  ~ In LF (q_qual r) -> ~ In CR (q_qual r) -> qrec_ok r.
+Proof. exact plain_qrec_ok. Qed.
+Print Assumptions c11_plain_qrec_ok.
+
+(* The FASTQ indexer on the writer's output (names valid UTF-8, sequences not ending with ASCII
+   whitespace - the indexer right-trims the sequence line): one record per written record, and
+   its two offsets point at the sequence and at the quality string of that record. *)
+Theorem c11_fastq_writer_indexed : forall sep recs,
+  sep = SP \/ sep = HT -> Forall qrec_ok recs -> Forall qidx_ok recs ->
+  index_qfile (write_qfile sep recs) = (expected_qindex sep recs 0, None).
+Proof. exact index_qfile_written. Qed.
+Print Assumptions c11_fastq_writer_indexed.
+
+Theorem c11_fastq_offsets_point : forall sep pre r post,
+  let f := write_qfile sep (pre ++ r :: post) in
+  let x := qfai_of sep r (len (write_qfile sep pre)) in
+  firstn (N.to_nat (qf_len x)) (skipn (N.to_nat (qf_seq_off x)) f) = q_seq r /\
+  firstn (length (q_qual r)) (skipn (N.to_nat (qf_qual_off x)) f) = q_qual r.
+Proof. exact qoffsets_point. Qed.
+Print Assumptions c11_fastq_offsets_point.
+
+(* ---- chunk independence of the region query ----
+
+   [query_delivered chk cap f sc r s e] (NV.Fasta.Delivery) is Reader::query run through
+   BufReader::with_capacity(cap, source) where the source hands out the bytes after the seek
+   position according to the script sc (any sequence of short reads and ErrorKind::Interrupted):
+   read_sequence_limit written over C12's model of the sequence reader's fill_buf / consume
+   (NV.Io.FastaScan).  For EVERY file, fai record, region, capacity >= 1 and script it never runs
+   out of fuel and returns what the whole-buffer line model [query_record] returns - no side
+   condition.  Proof: C12's step lemma for fill_buf + [rsl_lines (lines d) max = firstn max
+   (seq_spec d)] relating the line-driven model to C12's closed form. *)
+Theorem c11_query_any_delivery : forall chk cap f sc r s e,
+  (1 <= cap)%nat ->
+  query_delivered chk cap f sc r s e = (SOk, query_record chk f r s e).
+Proof. exact query_any_delivery. Qed.
+Print Assumptions c11_query_any_delivery.
+
+Theorem c11_rsl_closed_form : forall d max,
+  rsl_lines (lines d) max = firstn (N.to_nat max) (seq_spec d).
+Proof. exact rsl_lines_seq_spec. Qed.
+Print Assumptions c11_rsl_closed_form.
+
+(* ... hence the exactness theorem holds through every chunked source *)
+Theorem c11_query_exact_any_delivery : forall f recs err r chk s e cap sc,
+  index_file f = (recs, err) -> In r recs -> (1 <= cap)%nat ->
+  exists body, record_lines f r body /\
+    let B := naive_bases body in
+    let st := match s with Some p => p | None => 1 end in
+    let en := match e with Some p => p | None => usize_max end in
+    heads_ok body ->
+    nth (N.to_nat (st - 1)) B 0 <> CR -> nth (N.to_nat (st - 1)) B 0 <> GT ->
+    1 <= st -> st <= f_len r -> st <= en ->
+    query_delivered chk cap f sc r s e
+    = (SOk, QOk (firstn (N.to_nat (en - st + 1)) (skipn (N.to_nat (st - 1)) B))).
+Proof.
+  intros f recs err r chk s e cap sc H Hin Hcap.
+  destruct (query_exact_gen f recs err r chk s e H Hin) as [body [Hb Hq]].
+  exists body. split; [exact Hb|]. cbv zeta in *. intros Hh H1 H2 H3 H4 H5.
+  rewrite query_any_delivery by exact Hcap. f_equal. now apply Hq.
+Qed.
+Print Assumptions c11_query_exact_any_delivery.
 
 (* ---- non-vacuity ---- *)
 
@@ -146,4 +293,51 @@ Proof. vm_compute. reflexivity. Qed.
 Example c11_example_cr_gt_inside :
   index_and_query [62;97;10; 65;67;13;71;62;84;10; 65;67;10] [97] (Some 2) (Some 7)
   = QOk [67;13;71;62;84;65].
+Proof. vm_compute. reflexivity. Qed.
+
+(* the writer theorems are not vacuous: ">sq0 LN:8\nACG\nT>A\nCG\n>b\nAC\n" at width 3 *)
+Definition ex_recs : list frec :=
+  [mkfrec [115;113;48] (Some [76;78;58;56]) [65;67;71;84;62;65;67;71]; mkfrec [98] None [65;67]].
+
+Example c11_example_rec_ok : Forall (rec_ok 3) ex_recs /\ Forall has_bases ex_recs.
+Proof.
+  split; [|repeat constructor; discriminate].
+  repeat constructor; try discriminate; try reflexivity;
+    try (intros H; vm_compute in H; intuition discriminate).
+Qed.
+
+Example c11_example_written :
+  write_file 3 ex_recs
+  = [62;115;113;48;32;76;78;58;56;10; 65;67;71;10; 84;62;65;10; 67;71;10; 62;98;10; 65;67;10]
+  /\ index_file (write_file 3 ex_recs) = ([mkfai [115;113;48] 8 10 3 4; mkfai [98] 2 24 2 3], None)
+  /\ index_and_query (write_file 3 ex_recs) [115;113;48] (Some 3) (Some 6) = QOk [71;84;62;65].
+Proof. vm_compute. repeat split. Qed.
+
+(* FASTQ: "@r0 d\nAC\n+\n@+\n@r1\n\n+\n\n" - '@' and '+' in the qualities, an empty record *)
+Definition ex_qrecs : list qrec :=
+  [mkqrec [114;48] [100] [65;67] [64;43]; mkqrec [114;49] [] [] []].
+
+Example c11_example_qrec_ok : Forall qrec_ok ex_qrecs /\ Forall qidx_ok ex_qrecs.
+Proof.
+  split.
+  - repeat constructor; try reflexivity; try (intros H; vm_compute in H; intuition discriminate).
+  - repeat constructor.
+Qed.
+
+Example c11_example_fastq :
+  write_qfile SP ex_qrecs = [64;114;48;32;100;10; 65;67;10; 43;10; 64;43;10; 64;114;49;10; 10; 43;10; 10]
+  /\ read_qfile (write_qfile SP ex_qrecs) = (ex_qrecs, None)
+  /\ index_qfile (write_qfile SP ex_qrecs) = ([mkqfai [114;48] 2 6 2 3 11; mkqfai [114;49] 0 18 0 1 21], None).
+Proof. vm_compute. repeat split. Qed.
+
+(* CRLF input, repaired name handling: "@r3\r\nNCG\r\n+\r\n%2O\r\n" *)
+Example c11_example_fastq_crlf :
+  read_qfile [64;114;51;13;10; 78;67;71;13;10; 43;13;10; 37;50;79;13;10]
+  = ([mkqrec [114;51] [] [78;67;71] [37;50;79]], None).
+Proof. vm_compute. reflexivity. Qed.
+
+(* a query delivered one byte at a time with an Interrupted in between: s:4-9 of ex_file *)
+Example c11_example_delivered :
+  index_and_query_delivered 1 ex_file [Interrupted; Deliver 1; Interrupted; Deliver 2] [115] (Some 4) (Some 9)
+  = (SOk, QOk [84;65;67;71;84;65]).
 Proof. vm_compute. reflexivity. Qed.
